@@ -550,7 +550,10 @@ def known_findings(prop):
             kv = dict(x.split("=", 1) for x in head.split() if "=" in x)
             if kv.get("property") != prop:
                 continue
-            res[kv.get("case", "")] = {"text": text.strip(), "obs": kv.get("obs")}
+            obs = kv.get("obs")
+            if obs is not None:
+                obs = obs.replace("%20", " ")      # an observation containing blanks is written with %20
+            res[kv.get("case", "")] = {"text": text.strip(), "obs": obs}
     return res
 
 
